@@ -66,3 +66,25 @@ Example C09_nonvacuous :
   /\ snd (lrun {| lmax := 3; lrate := 1000000000 |} (linit 0) [LAllow 1; LAllow 1; LAllow 1; LAllow 1])
      = [(1, true); (1, true); (1, true); (1, false)].
 Proof. unfold wf_cfg. cbn. repeat split; try lia; repeat constructor; cbn; lia. Qed.
+
+From Helios Require Import Gen.LimiterGen Proofs.LimiterRefine.
+
+(* The model IS the source: refillTokens, the per-bucket part of Allow and bucketMaxAge of ratelimiter.go, as go2coq regenerates
+   them on every run (Gen/LimiterGen.v), compute what Model/Limiter.v computes (buckets are stamped with times not in the future;
+   a new client's bucket is full and stamped now). *)
+Theorem C09_model_is_source_refill :
+  forall cfg tick b now, 1 <= lrate cfg -> last b <= now ->
+    rl_refillTokens (abs_rl cfg tick) (abs_b b) now = (abs_b (refill cfg b now), 0).
+Proof. exact refill_refines. Qed.
+Print Assumptions C09_model_is_source_refill.
+
+Theorem C09_model_is_source_allow :
+  forall cfg tick b now, 1 <= lrate cfg -> last b <= now ->
+    rl_Allow (abs_rl cfg tick) (abs_b b) now = (abs_b (fst (allow_bucket cfg (Some b) now)), snd (allow_bucket cfg (Some b) now)).
+Proof. exact allow_refines. Qed.
+Print Assumptions C09_model_is_source_allow.
+
+Theorem C09_model_is_source_max_age :
+  forall cfg tick now, 1 <= lmax cfg -> 1 <= lrate cfg -> snd (rl_bucketMaxAge (abs_rl cfg tick) now) = cleanup_age cfg.
+Proof. exact maxage_refines. Qed.
+Print Assumptions C09_model_is_source_max_age.
